@@ -324,16 +324,18 @@ func (w *CfgWorld) Init(s *kernel.Sim) {
 		priv, pub := LogKey(k)
 		c := &configpb.LogConfig{LogId: int64(100 + l), Prefix: prefix, RootsPemFile: []string{w.rootsFile}, LogBackendName: m.Backends.Backend[t.Intn(nBE)].Name,
 			MaxMergeDelaySec: 86400, ExpectedMergeDelaySec: 7200}
-		switch t.Pick([]int{4, 2, 2, 1}) {
-		case 0: // regular
-			c.PrivateKey, c.PublicKey = priv, pub
-		case 1: // mirror
-			c.IsMirror, c.PublicKey = true, pub
-		case 2: // frozen
-			c.PrivateKey, c.PublicKey = priv, pub
+		// log kind: mirror, frozen and read-only are independent flags (a frozen mirror, a
+		// read-only frozen log ... are all legal configurations)
+		c.PublicKey = pub
+		if t.Chance(1, 4) {
+			c.IsMirror = true
+		} else {
+			c.PrivateKey = priv
+		}
+		if t.Chance(1, 3) {
 			c.FrozenSth = signedFrozen(k, int64(t.Range(0, 40)), 946684800000+int64(t.Intn(1000)))
-		default: // readonly
-			c.PrivateKey, c.PublicKey = priv, pub
+		}
+		if t.Chance(1, 4) {
 			c.IsReadonly = true
 		}
 		if t.Chance(1, 3) {
